@@ -49,7 +49,8 @@ PLAN = {
     },
     "C05": {
         "mc": [],
-        "families": [fam("hostile", runner="hostile", trace="Trace_Hostile", budget_ms=60000)],
+        "families": [fam("hostile", runner="hostile", trace="Trace_Hostile", budget_ms=60000),
+                     fam("x_fault"), fam("x_large_fault")],
         "rule": "all strings over a nine-symbol alphabet up to length 5 (quick) / 6 (thorough) as head, as header block and as chunked body; endless constructs (status line, header line, header fields valid/duplicate/invalid-name, chunk-size line, chunk extension, CONNECT refusal body); declared-only sizes up to 2^64; seeded mutations (bit flips, splices, deletions, duplications, numeric blow-ups) of valid responses",
         "assumptions": ASSUME_X + ["peak live heap is measured per client thread by a counting global allocator in the harness", "an 'endless' construct is a 2-16 MiB one: the client must give up within the property's bound long before its end"],
         "replay_runner": "hostile", "replay_trace": "Trace_Hostile",
